@@ -668,3 +668,65 @@ def r19_extend_map_chars(text):
         text = text[:m.start()] + new + text[cl + 1 + tail.end():]
         n += 1
     return text, n
+
+
+@rule('R6_sparse')
+def r6_sparse(text, *vec_idents):
+    """named idioms of tokenization::token_groups_to_sparse_coo_matrix:
+       assert_eq!(A, B[, msg..]);                                        -> assert!(A == B);         (message dropped, cf. R4)
+       GS.iter().map(|(g, _)| g.len()).collect()                         -> vt_group_lengths(GS)
+       X.iter().max().copied().unwrap_or(0)                              -> vt_max_or0(X) / vt_max_or0(&X) for the listed Vec identifiers
+       X.iter().sum()                                                    -> vt_sum(X)
+       for (i, &(a, b)) in GS.iter().enumerate() {                       -> for i in 0..GS.len() { let a = &GS[i].0; let b = &GS[i].1;
+       V[A..B].iter_mut().for_each(|v| *v = E);                          -> vt_fill(&mut V, A, B, E);
+       V[A..B].iter_mut().zip(C..D).for_each(|(v, w)| *v = w);           -> vt_fill_range(&mut V, A, B, C, D);
+       V[A..B].iter_mut().zip(W).for_each(|(v, w)| *v = w);              -> vt_fill_from(&mut V, A, B, W);"""
+    n = 0
+
+    def sub_assert(m):
+        inner = m.group(1)
+        # split top-level commas
+        parts, cur, d, q = [], '', 0, False
+        for ch in inner:
+            if ch == '"':
+                q = not q
+            if not q and ch in '([{':
+                d += 1
+            if not q and ch in ')]}':
+                d -= 1
+            if ch == ',' and d == 0 and not q:
+                parts.append(cur)
+                cur = ''
+            else:
+                cur += ch
+        if cur.strip():
+            parts.append(cur)
+        if len(parts) < 2:
+            return m.group(0)
+        return 'assert!(%s == %s);' % (parts[0].strip(), parts[1].strip())
+    text, k = re.subn(r'assert_eq!\(((?:[^()]|\((?:[^()]|\([^()]*\))*\))*)\);', sub_assert, text)
+    n += k
+    text, k = re.subn(r'\b(%s)\.iter\(\)\.map\(\|\((%s), _\)\| (%s)\.len\(\)\)\.collect\(\)' % ((IDENT,) * 3),
+                      lambda m: 'vt_group_lengths(%s)' % m.group(1) if m.group(2) == m.group(3) else m.group(0), text)
+    n += k
+    text, k = re.subn(r'\b(%s)\.iter\(\)\.max\(\)\.copied\(\)\.unwrap_or\(0\)' % IDENT,
+                      lambda m: 'vt_max_or0(%s%s)' % ('&' if m.group(1) in vec_idents else '', m.group(1)), text)
+    n += k
+    text, k = re.subn(r'\b(%s)\.iter\(\)\.sum\(\)' % IDENT, r'vt_sum(\1)', text)
+    n += k
+    text, k = re.subn(r'([ \t]*)for \((%s), &\((%s), (%s)\)\) in (%s)\.iter\(\)\.enumerate\(\) \{' % ((IDENT,) * 4),
+                      lambda m: '%sfor %s in 0..%s.len() {\n%s    let %s = &%s[%s].0;\n%s    let %s = &%s[%s].1;' % (
+                          m.group(1), m.group(2), m.group(5), m.group(1), m.group(3), m.group(5), m.group(2), m.group(1), m.group(4), m.group(5), m.group(2)), text)
+    n += k
+    text, k = re.subn(r'\b(%s)\[([^\]\n]+?)\.\.([^\]\n]+?)\]\s*\.iter_mut\(\)\s*\.for_each\(\|(%s)\| \*(%s) = ([^;\n]+)\);' % ((IDENT,) * 3),
+                      lambda m: 'vt_fill(&mut %s, %s, %s, %s);' % (m.group(1), m.group(2), m.group(3), m.group(6)) if m.group(4) == m.group(5) else m.group(0), text)
+    n += k
+    text, k = re.subn(r'\b(%s)\[([^\]\n]+?)\.\.([^\]\n]+?)\]\s*\.iter_mut\(\)\s*\.zip\(([^\n()]+?)\.\.([^\n]+?)\)\s*\.for_each\(\|\((%s), (%s)\)\| \*(%s) = (%s)\);' % ((IDENT,) * 5),
+                      lambda m: 'vt_fill_range(&mut %s, %s, %s, %s, %s);' % (m.group(1), m.group(2), m.group(3), m.group(4), m.group(5))
+                      if m.group(6) == m.group(8) and m.group(7) == m.group(9) else m.group(0), text)
+    n += k
+    text, k = re.subn(r'\b(%s)\[([^\]\n]+?)\.\.([^\]\n]+?)\]\s*\.iter_mut\(\)\s*\.zip\((%s)\)\s*\.for_each\(\|\((%s), (%s)\)\| \*(%s) = (%s)\);' % ((IDENT,) * 6),
+                      lambda m: 'vt_fill_from(&mut %s, %s, %s, %s);' % (m.group(1), m.group(2), m.group(3), m.group(4))
+                      if m.group(5) == m.group(7) and m.group(6) == m.group(8) else m.group(0), text)
+    n += k
+    return text, n
